@@ -180,7 +180,14 @@ func buildSpec(s string) (r retry.Backoff, res string) {
 			res = fmt.Sprintf("panic:%v", p)
 		}
 	}()
-	r, err := retry.NewBackoffBuilder().BaseBackoffSpec(s).Build()
+	bld := retry.NewBackoffBuilder()
+	if rng.Intn(3) == 0 {
+		// the specification is REPLACED on one builder: whatever was given first (well-formed or not) must leave no trace
+		prior := []string{"fixed=100", "random=1:5", "exponential=1:100:2", "fixed", "garbage", ":", "=", "fixed=", "random=:", "exponential=::"}[rng.Intn(10)]
+		bld.BaseBackoffSpec(prior)
+		stats["spec replaced on one builder"]++
+	}
+	r, err := bld.BaseBackoffSpec(s).Build()
 	if err != nil {
 		return nil, "err"
 	}
